@@ -14,7 +14,13 @@ Oracle (implementation only): per send with a callback (unretried or guaranteed)
   * False only if at least the message time-out has elapsed since the send;
   * forged / unauthentic datagrams never cause a callback;
   * at quiescence stats.assembled == stats.acked + stats.timeouts + len(pending_acks) on both sides
-    and pending sequence numbers are distinct."""
+    and pending sequence numbers are distinct.
+Application callbacks that RAISE (connsim's optional `raises` flag: always / only on False / only on True) are part
+of the input space: the implementation logs the exception and continues, so the model side is unchanged and every
+clause above is judged as usual — in particular for the OTHER callbacks that share a datagram with a raising one
+(sessions with bursts of sends per frame, and an enumeration of two/three callbacks in one datagram x raise mode x
+retry modes x acked / timed-out datagram x keep-alive interval below / above the message time-out, both roles).
+Callbacks that call send() themselves (follow-up messages sent from inside a callback): implementation-only sessions."""
 from harness import lib, netsim, connsim as S
 
 RULE = ("netsim sessions: latency in {0, 1/4, 1/2, 3/4} of the resend interval .. several intervals, loss/dup/reorder grid, "
@@ -55,7 +61,55 @@ def forge(net, rng, who):
     return data + struct.pack(">L", binascii.crc32(data) & 0xFFFFFFFF)
 
 
-def session(run, rng, label, steps, forged):
+def judge(net, label, cfg, mtu, viol):
+    """the oracle clauses over one finished session (both endpoints); returns callback counts"""
+    mp = net.env[0]
+    stats = {"true": 0, "false": 0}
+    for who in ("client", "server"):
+        peer = net.other(who)
+        conn = net.ep(who).impl.conn
+        byid = {}
+        for (t, cbid, ok) in net.callbacks[who]:
+            byid.setdefault(cbid, []).append((t, ok))
+            stats["true" if ok else "false"] += 1
+        for mid, rec in net.sent[who].items():
+            if rec["cb"] is None or not rec["accepted"] or rec["retry"] == 1:
+                continue
+            calls = byid.get(mid, [])
+            case = {"session": label, "who": who, "len": rec["len"], "retry": rec["retry"], "calls": calls,
+                    "sent_at": rec["time"], "cfg": cfg, "mtu": mtu}
+            if rec.get("raises"):
+                case["callback_raises"] = rec["raises"]
+            if getattr(net, "raising_ids", None):
+                # the other callbacks queued in the same frame (candidates for sharing the datagram) that raise
+                case["raising_callbacks_queued_in_the_same_frame"] = sorted(
+                    m for m in net.raising_ids.get(who, ()) if m != mid and net.sent[who][m]["time"] == rec["time"])
+            if len(calls) > 1:
+                viol.append(("callback-fired-more-than-once", case))
+            if len(calls) == 0:
+                viol.append(("callback-never-fired", case))
+            if rec["retry"] == -1 and calls and not calls[0][1]:
+                viol.append(("guaranteed-send-reported-failure", case))
+            for (t, ok) in calls:
+                if ok:
+                    got = [dt for (dt, p) in net.delivered[peer] if p == rec["payload"]]
+                    if not got or min(got) > t:
+                        case2 = dict(case)
+                        case2["fragmented"] = rec["len"] > mp
+                        case2["delivered_at"] = got
+                        viol.append(("success-reported-but-peer-never-got-the-message", case2))
+                else:
+                    if t - rec["time"] < S.ticks(conn.outgoing_timeout):
+                        viol.append(("failure-reported-before-the-message-timeout", case))
+        st = conn.stats
+        if st.assembled != st.acked + st.timeouts + len(conn.pending_acks):
+            viol.append(("datagram-resolution-accounting", {"session": label, "who": who, "assembled": st.assembled,
+                                                            "acked": st.acked, "timeouts": st.timeouts,
+                                                            "pending": len(conn.pending_acks)}))
+    return stats
+
+
+def session(run, rng, label, steps, forged, bursts=False):
     ka = 1536
     cfg = {"loss": rng.choice([0, 0.1, 0.3, 0.5]), "dup": rng.choice([0, 0.2]), "reorder": rng.choice([0, 0.3]),
            "tick": rng.choice([300, 600, 900]), "max_delay": rng.choice([T // 8, T // 2, T]),
@@ -66,8 +120,20 @@ def session(run, rng, label, steps, forged):
     n_forged = 0
     try:
         mp = net.env[0]
+        net.raising_ids = {"client": set(), "server": set()}
         for i in range(steps):
-            if rng.random() < 0.45:
+            if bursts:
+                # several sends per frame (their callbacks share a datagram), some of the callbacks raise
+                if rng.random() < 0.4:
+                    who = rng.choice(["client", "server"])
+                    for _ in range(rng.choice([2, 2, 3, 5])):
+                        L = rng.choice([0, 1, 10, 10, 40, 200, mp + 1, 2 * 1024 + 3])
+                        retry = rng.choice([0, 0, -1, -1, 1])
+                        rz = rng.choice([0, 0, 1, 1, 2, 3])
+                        mid = net.send(who, L, retry, with_cb=True, raises=rz, api=rng.random() < 0.3)
+                        if rz:
+                            net.raising_ids[who].add(mid)
+            elif rng.random() < 0.45:
                 who = rng.choice(["client", "server"])
                 L = rng.choice([0, 1, 10, 200, mp - 1, mp, mp + 1, 2 * 1024 + 3, 3000])
                 retry = rng.choice([0, 0, -1, -1, 1])
@@ -88,42 +154,7 @@ def session(run, rng, label, steps, forged):
         for i in range(int((3 * T + 4 * cfg["delay"]) // cfg["tick"]) + 30):
             net.step()
         diffs = net.check_models()
-        stats = {"true": 0, "false": 0}
-        for who in ("client", "server"):
-            peer = net.other(who)
-            conn = net.ep(who).impl.conn
-            byid = {}
-            for (t, cbid, ok) in net.callbacks[who]:
-                byid.setdefault(cbid, []).append((t, ok))
-                stats["true" if ok else "false"] += 1
-            for mid, rec in net.sent[who].items():
-                if rec["cb"] is None or not rec["accepted"] or rec["retry"] == 1:
-                    continue
-                calls = byid.get(mid, [])
-                case = {"session": label, "who": who, "len": rec["len"], "retry": rec["retry"], "calls": calls,
-                        "sent_at": rec["time"], "cfg": cfg, "mtu": mtu}
-                if len(calls) > 1:
-                    viol.append(("callback-fired-more-than-once", case))
-                if len(calls) == 0:
-                    viol.append(("callback-never-fired", case))
-                if rec["retry"] == -1 and calls and not calls[0][1]:
-                    viol.append(("guaranteed-send-reported-failure", case))
-                for (t, ok) in calls:
-                    if ok:
-                        got = [dt for (dt, p) in net.delivered[peer] if p == rec["payload"]]
-                        if not got or min(got) > t:
-                            case2 = dict(case)
-                            case2["fragmented"] = rec["len"] > mp
-                            case2["delivered_at"] = got
-                            viol.append(("success-reported-but-peer-never-got-the-message", case2))
-                    else:
-                        if t - rec["time"] < S.ticks(conn.outgoing_timeout):
-                            viol.append(("failure-reported-before-the-message-timeout", case))
-            st = conn.stats
-            if st.assembled != st.acked + st.timeouts + len(conn.pending_acks):
-                viol.append(("datagram-resolution-accounting", {"session": label, "who": who, "assembled": st.assembled,
-                                                                "acked": st.acked, "timeouts": st.timeouts,
-                                                                "pending": len(conn.pending_acks)}))
+        stats = judge(net, label, cfg, mtu, viol)
     finally:
         net.close()
     for what, case in viol[:4]:
@@ -217,6 +248,133 @@ def directed_d17(run):
             net.close()
 
 
+def shared_datagram_cases(run):
+    """enumeration: n callbacks in ONE datagram, the k-th one raises (always / only on False / only on True); the
+    datagram is acked, or lost and timed out; the sender's keep-alive (= re-send) interval is the default or twice the
+    message time-out (then no re-send of the retried messages is in flight when the time-out fires); both roles; every
+    combination of retry modes of the raising callback's message and of its siblings.  Every clause of the oracle is
+    judged for every message — a raising callback must not change what the others see."""
+    rng = run.rng
+    cases, impl, mod = [], [], []
+    n_viol = 0
+    combos = []
+    for who in ("client", "server"):
+        for path in ("acked", "timed-out"):
+            for rz in (1, 2, 3):
+                for ka in (1536, 2 * T):
+                    for retries in ((0, 0), (0, -1), (-1, 0), (-1, -1), (1, -1, 0), (0, 0, -1)):
+                        for k in range(len(retries) - 1):
+                            combos.append((who, path, rz, ka, retries, k))
+    if not run.thorough():
+        # quick: every (role, path, raise mode, interval) with a rotating choice of the retry-mode combination
+        keep = []
+        by = {}
+        for c in combos:
+            by.setdefault(c[:4], []).append(c)
+        for n, (key, lst) in enumerate(sorted(by.items())):
+            keep.append(lst[n % len(lst)])
+            keep.append(lst[(n * 5 + 3) % len(lst)])
+        combos = keep
+    for (who, path, rz, ka, retries, k) in combos:
+        label = "shared:%s/%s/raise%d/ka%d/%s/k%d" % (who, path, rz, ka, ",".join(map(str, retries)), k)
+        cfg = {"loss": 0, "dup": 0, "reorder": 0, "tick": 300, "delay": 0, "healed_delay": 0, "scenario": label}
+        net = netsim.Net(run, rng, cfg, mtu=1500)
+        viol = []
+        try:
+            net.raising_ids = {"client": set(), "server": set()}
+            for _ in range(3):
+                net.step()
+            if ka != 1536:
+                net.ep(who).apply(("cfg", 0, ka))
+            for j, r in enumerate(retries):
+                mid = net.send(who, rng.choice([9, 12, 40]), r, with_cb=True, raises=rz if j == k else 0)
+                if j == k:
+                    net.raising_ids[who].add(mid)
+            first = len(net.emitted[who])
+            if path == "timed-out":
+                net.drop_filter = lambda w, rec, who=who, first=first: w == who and rec is net.emitted[w][first]
+            for _ in range(int(3.2 * T) // 300):
+                net.step()
+            shared = len(S.decode_msgs_py(net.emitted[who][first]["hdr"][4], net.emitted[who][first]["hdr"][6],
+                                          bytes(net.emitted[who][first]["payload"])) or [])
+            if shared != len(retries):
+                raise RuntimeError("shared-datagram scenario: the messages did not travel in one datagram")
+            diffs = net.check_models()
+            judge(net, label, cfg, 1500, viol)
+        finally:
+            net.close()
+        for what, case in viol[:2]:
+            if n_viol < 8:
+                run.oracle_violation(what, case, "callbacks")
+            n_viol += 1
+        cases.append({"session": label, "first_difference": diffs[:1]})
+        impl.append("agree")
+        mod.append("agree" if not diffs else "differ")
+        run.count("shared_datagram_cases")
+        run.evaluations += len(net.emitted["client"]) + len(net.emitted["server"])
+        run.nt((label,))
+    run.compare("conn_run", cases, impl, mod)
+
+
+def nested_api_sessions(run, rng, n, steps):
+    """send callbacks that call the API themselves (connsim's optional Impl.cb_hook): from inside a callback the
+    application sends a follow-up message (unretried or guaranteed, with its own callback), two levels deep; some of the
+    outer callbacks also raise afterwards.  Implementation only (the follow-up sends are not events of the Conn.v
+    history); every oracle clause is judged for the outer AND the follow-up messages."""
+    for i in range(n):
+        cfg = {"loss": rng.choice([0, 0.2, 0.4]), "dup": rng.choice([0, 0.2]), "reorder": rng.choice([0, 0.3]),
+               "tick": rng.choice([300, 600]), "max_delay": T // 4, "delay": rng.choice([0, 750, 1800]), "healed_delay": 0,
+               "scenario": "send() from inside send callbacks"}
+        label = "n%d" % i
+        net = netsim.Net(run, rng, cfg, mtu=1500)
+        viol = []
+        depth = {}
+        try:
+            net.raising_ids = {"client": set(), "server": set()}
+
+            def make_hook(who):
+                ep = net.ep(who)
+
+                def hook(cbid, ok):
+                    d = depth.get((who, cbid), 0)
+                    if d >= 2 or net.healed and d >= 1:
+                        return
+                    conn = ep.impl.conn
+                    mid = net.next_id
+                    net.next_id += 1
+                    payload = b"%08d|follow-up of %d" % (mid, cbid)
+                    retry = rng.choice([0, -1])
+                    net.sent[who][mid] = {"payload": payload, "retry": retry, "time": net.t, "cb": mid, "len": len(payload),
+                                          "raises": 0, "accepted": conn.status.value == 2, "sent_from_callback_of": cbid}
+                    depth[(who, mid)] = d + 1
+                    conn.send(payload, retry=retry, callback=ep.impl.user_cb(mid))
+                return hook
+            for who in ("client", "server"):
+                net.ep(who).impl.cb_hook = make_hook(who)
+            for k in range(steps):
+                if rng.random() < 0.4:
+                    who = rng.choice(["client", "server"])
+                    for _ in range(rng.choice([1, 2, 3])):
+                        rz = rng.choice([0, 0, 0, 1, 2])
+                        mid = net.send(who, rng.choice([9, 12, 40, 300, 2500]), rng.choice([0, -1]), with_cb=True, raises=rz)
+                        if rz:
+                            net.raising_ids[who].add(mid)
+                net.step()
+            net.healed = True
+            for k in range(int((4 * T + 6 * cfg["delay"]) // cfg["tick"]) + 30):
+                net.step()
+            stats = judge(net, label, cfg, 1500, viol)
+        finally:
+            net.close()
+        for what, case in viol[:3]:
+            run.oracle_violation(what, case, "callbacks")
+        run.count("sessions_with_sends_from_callbacks")
+        run.count("follow_up_sends_from_callbacks", len(depth))
+        run.evaluations += len(net.emitted["client"]) + len(net.emitted["server"])
+        if len(depth) >= 3 and stats["true"] and stats["false"]:
+            run.nt((label, len(depth), stats["true"], stats["false"]))
+
+
 def net_due_callbacks_possible(net, who):
     return True
 
@@ -246,6 +404,31 @@ def run(run):
         if i < 2:
             run.sample({"session": label, "cfg": cfg, "callbacks": {w: net.callbacks[w][:6] for w in net.callbacks}})
     run.compare("conn_run", cases, impl, mod)
+    # ---- application callbacks that raise
+    import logging
+    logging.disable(logging.CRITICAL)        # the implementation logs every raising callback with its traceback
+    try:
+        shared_datagram_cases(run)
+        cases, impl, mod = [], [], []
+        for i in range(40 if th else 8):
+            if any(not lib.matches_known("C07", f) for f in run.oracle_fail) and _time.time() - run.t0 > 60:
+                break
+            label = "r%d" % i
+            net, diffs, cfg, stats, nf, lost = session(run, rng, label, 120 if th else 60, forged=False, bursts=True)
+            cases.append({"session": label, "cfg": cfg, "raising_callbacks": True, "first_difference": diffs[:1]})
+            impl.append("agree")
+            mod.append("agree" if not diffs else "differ")
+            run.count("sessions_with_raising_callbacks")
+            run.count("raising_callbacks", sum(len(v) for v in net.raising_ids.values()))
+            run.count("callbacks_true", stats["true"])
+            run.count("callbacks_false", stats["false"])
+            run.evaluations += len(net.emitted["client"]) + len(net.emitted["server"])
+            if stats["true"] and stats["false"] and lost:
+                run.nt((label, stats["true"], stats["false"]))
+        run.compare("conn_run", cases, impl, mod)
+        nested_api_sessions(run, rng, 30 if th else 6, 100 if th else 50)
+    finally:
+        logging.disable(logging.NOTSET)
     stale_ack_after_wrap(run)
     directed_d17(run)
     run.rules.append(RULE)
